@@ -180,13 +180,34 @@ def spectrum(ctx, N, cls_qual=PCOVR, label="PCovR"):
             continue
         for nm, a, dims in zip(("U", "S", "Vt"), r.items, (("n", "K"), ("K",), ("K", "n"))):
             ctx.shape_is("Shape", f"{label}._decompose_truncated[{solver}]: shape of {nm}", a, dims, site)
-        if solver == "arpack":
-            # ARPACK returns ascending singular values: all three must be reversed together
-            rev = T("slice", T("const", None), T("const", None), T("const", Fraction(-1)))
-            tU, tS, tV = (repr(x.term) for x in r.items)
-            okS = "::-1" in tS or "flip" in tS
-            okU = "::-1" in tU or "flip" in tU
-            okV = "::-1" in tV or "flip" in tV
+        if label == "PCovR":
+            # exact agreement with the reference (ARPACK: ascending output, all three factors reversed together)
+            I2, s2 = ctx.interp(), State()
+            if solver == "arpack":
+                v0s = [e.get("v0") for e in I.events[lo:] if e["kind"] == "rng-sink" and e.get("v0") is not None]
+                if v0s:
+                    ref = ctx.call_func(I2, s2, "ref.pcovr_ref.leading_components_arpack", mat, integer("K"), b2["tol"], v0s[0])
+                else:
+                    ref = None
+            else:
+                seeds = [e.get("seed") for e in I.events[lo:] if e["kind"] == "rng-sink" and e.get("seed") is not None]
+                ref = ctx.call_func(I2, s2, "ref.pcovr_ref.leading_components_randomized", mat, integer("K"), b2["iterated_power"] if isinstance(b2["iterated_power"], V) else vconst(b2["iterated_power"]), seeds[0]) if seeds else None
+            if ctx.ob("R-SPECTRUM", f"{label}._decompose_truncated[{solver}]: solver call located", ref is not None, "rng sink with start vector / seed", site):
+                for nm, a_, b_ in zip(("U", "S", "Vt"), r.items, ref.items):
+                    ctx.compare("R-SPECTRUM", f"{label}._decompose_truncated[{solver}]: {nm} == reference (consistent ordering of the triple)", N, a_, b_, site)
+        elif solver == "arpack":
+            # KernelPCovR zeroes small singular directions afterwards; check the reversal structurally
+            def reversed_arg(t, which):
+                # the svds factor must occur only under a [::-1] (rows) / [:, ::-1] (columns) view
+                from .. import tq as _tq
+
+                hits = [x for x in _tq.walk_all(t) if x.op == which]
+                wrapped = [x for x in _tq.walk_all(t) if x.op == "getitem" and x.args[0].op == which and any(y.op == "slice" and y.args[2] == T("const", Fraction(-1)) for y in _tq.walk_all(x.args[1]))]
+                return bool(hits) and len(set(wrapped)) >= 1 and all(any(w.args[0] is h or w.args[0] == h for w in wrapped) for h in hits)
+
+            okS = reversed_arg(r.items[1].term, "svds_S")
+            okU = reversed_arg(r.items[0].term, "svds_U")
+            okV = reversed_arg(r.items[2].term, "svds_Vt") and reversed_arg(r.items[0].term, "svds_Vt") if any(x.op == "svds_Vt" for x in __import__("sa.tq", fromlist=["x"]).walk_all(r.items[0].term)) else reversed_arg(r.items[2].term, "svds_Vt")
             ctx.ob("R-SPECTRUM", f"{label}: ARPACK output reversed consistently (S, columns of U, rows of Vt)", okS and okU and okV, f"S reversed={okS} U reversed={okU} Vt reversed={okV}", site)
         sinks = [e for e in I.events[lo:] if e["kind"] == "rng-sink"]
         from .. import tq
